@@ -305,6 +305,10 @@ mutual
     | _, _ => false
 end
 
+/-- the `!=` operator (evaluate/visitor.rs:2838: `Value::bool(left != right)`, Rust's default
+    `PartialEq::ne`, i.e. the negation of `eq` — *not* `not_equals`). -/
+def neOp (sw : Sw) (a b : Value) : Bool := !(veq sw a b)
+
 /-! ### `SassMap` (value/map.rs): an insertion-ordered association list searched with `==` -/
 
 /-- `SassMap::get` / `get_ref` (map.rs:42, :52): first entry whose key `== key`. -/
@@ -480,15 +484,17 @@ def matGet (m : List (List Bool)) (i j : Nat) : Bool := ((m.getD i []).getD j fa
 def lawRefl (m : List (List Bool)) (dom : List Nat) : Option Nat :=
   dom.find? (fun i => !matGet m i i)
 
+def pairsUpTo (n : Nat) : List (Nat × Nat) :=
+  (List.range n).flatMap fun i => (List.range n).map fun j => (i, j)
+
+def triplesUpTo (n : Nat) : List (Nat × Nat × Nat) :=
+  (List.range n).flatMap fun i => (List.range n).flatMap fun j => (List.range n).map fun k => (i, j, k)
+
 def lawSymm (m : List (List Bool)) (n : Nat) : Option (Nat × Nat) :=
-  ((List.range n).flatMap fun i => (List.range n).map fun j => (i, j)).find?
-    (fun p => matGet m p.1 p.2 != matGet m p.2 p.1)
+  (pairsUpTo n).find? (fun p => matGet m p.1 p.2 != matGet m p.2 p.1)
 
 def lawTrans (m : List (List Bool)) (n : Nat) : Option (Nat × Nat × Nat) :=
-  ((List.range n).flatMap fun i => (List.range n).flatMap fun j =>
-      if matGet m i j then (List.range n).filterMap fun k =>
-        if matGet m j k && !matGet m i k then some (i, j, k) else none
-      else []).head?
+  (triplesUpTo n).find? (fun t => matGet m t.1 t.2.1 && matGet m t.2.1 t.2.2 && !matGet m t.1 t.2.2)
 
 /-! ### driver: value encoding
 
